@@ -37,6 +37,7 @@ from funsor.terms import Reduce, Funsor, to_funsor, Lambda, Independent
 
 DECLINE = (NotImplementedError, AssertionError, ValueError, TypeError, KeyError, IndexError, AttributeError)
 KF_MINMAX = "KF-minmax-mul-negative"
+KF_REDUCE_ANDOR = "KF-reduce-andor-logical-on-ints"
 
 
 # ---------------------------------------------------------------------------------------------
@@ -648,6 +649,50 @@ def stream_lazy(ctx, n):
     return cases
 
 
+def stream_bitwise(ctx, n):
+    """and / or / xor on small NON-boolean integers (Bint[4], Bint[8] tensors and numbers): funsor's ops are
+    python's bitwise operators; the spec (Model/Term.lean `bitop`) is bitwise on integers too."""
+    rng = ctx.rng
+    cases = []
+    for _ in range(n):
+        c = gen_ctx(rng)
+
+        def leaf():
+            size = rng.choice([4, 8])
+            if rng.random() < 0.2:
+                return ("num", rng.randrange(size), size)
+            return gen_terms.gen_tensor(rng, c, size)
+        a, b = leaf(), leaf()
+        if a[0] == "num" and b[0] == "num":
+            b = gen_terms.gen_tensor(rng, c, 8)
+        r = ("boolbin", rng.choice(["and", "or", "xor"]), a, b)
+        if rng.random() < 0.4:
+            r = ("boolbin", rng.choice(["and", "or", "xor"]), r, leaf())
+        cases.append(Case("bitwise", r))
+    return cases
+
+
+def stream_slice_compose(ctx):
+    """Slice-into-Slice substitution, enumerated over a small box: t(j = Slice(s_, start, stop, step)(s_ =
+    Slice(i, s2, L1, st2))) for every start, step, s2, st2 in {0,1}x{1,2,3}x{0,1,2}x{1,2,3}, L in {1,2,3}."""
+    cases = []
+    for start in (0, 1):
+        for step in (1, 2, 3):
+            for s2 in (0, 1, 2):
+                for st2 in (1, 2, 3):
+                    for L in (1, 2, 3):
+                        L1 = s2 + (L - 1) * st2 + 1
+                        stop = start + (L1 - 1) * step + 1
+                        size = stop + ((start + step + s2 + st2 + L) % 2)
+                        if size > 12:
+                            continue
+                        t = ("tensor", (("j", size),), "real", (), np.arange(1.0, size + 1.0))
+                        val = ("subs", ("slice", "s_", start, stop, step, size), (("s_", ("slice", "i", s2, L1, st2, L1)),))
+                        cases.append(Case("slice2", ("subs", t, (("j", val),))))
+    ctx.count("slice2:enumerated", len(cases))
+    return cases
+
+
 # ---- exhaustive stratum ------------------------------------------------------------------------------
 
 EXH_CTX = OrderedDict([("i", 2), ("j", 2), ("k", 3)])
@@ -751,6 +796,26 @@ def stream_known_minmax(ctx):
                      "y = (s * t).reduce(ops.min, frozenset(['j', 'k']))\nprint(y)\nFAILS = float(y.data) != -2.0\n")
 
 
+def stream_known_reduce_andor(ctx):
+    """KF-reduce-andor-logical-on-ints: Reduce(or_/and_) over a named input of a NON-boolean integer tensor
+    goes through np.any / np.all (logical) while the binary ops are bitwise: [3,5].reduce(or_) is True, the
+    fold 3|5 is 7."""
+    t = Tensor(np.array([3, 5]), OrderedDict(i=Bint[2]), 8)
+    try:
+        y = t.reduce(ops.or_, "i")
+        got = int(np.asarray(y.data)) if isinstance(y, (Tensor, Number)) else None
+        reproduced = got is not None and got != 7
+    except DECLINE:
+        got, reproduced = None, False
+    ctx.count("known:reduce-andor:" + ("reproduced" if reproduced else "not-reproduced"))
+    if not ctx.is_open(KF_REDUCE_ANDOR):
+        # reported to the integrator; not (yet) listed in known_findings.json: recorded, not gated
+        ctx.extra["unlisted_finding_" + KF_REDUCE_ANDOR] = {"reproduced": reproduced, "got": got, "expected": 7}
+        return
+    ctx.known(KF_REDUCE_ANDOR, reproduced,
+              what="Tensor([3,5],{i},Bint[8]).reduce(ops.or_,'i') = True (logical any), the fold 3|5 = 7")
+
+
 # ---------------------------------------------------------------------------------------------
 # entry points
 # ---------------------------------------------------------------------------------------------
@@ -774,7 +839,10 @@ def correspond(ctx):
     if not quick:
         run_cases(ctx, stream_exhaustive(ctx))
         ctx.extra["exhaustive_stratum"] = "all depth<=2 expressions over the fixed pool enumerated"
+    run_cases(ctx, stream_bitwise(ctx, 120 if quick else 3000))
+    run_cases(ctx, stream_slice_compose(ctx))
     stream_known_minmax(ctx)
+    stream_known_reduce_andor(ctx)
     # fidelity percentages
     for st in ("rand", "ext", "exh"):
         tot = ctx.distribution.get(f"{st}:fidelity:compared", 0)
@@ -784,7 +852,8 @@ def correspond(ctx):
                 "inputs_order_equal_pct": round(100.0 * ctx.distribution.get(f"{st}:fidelity:inputs-order-equal", 0) / tot, 2),
                 "data_layout_equal_pct": round(100.0 * ctx.distribution.get(f"{st}:fidelity:data-layout-equal", 0) / tot, 2)}
     ctx.assumptions.append("transcendental ops (exp, log, sigmoid, …) are outside the exact fragment of Model/Term.lean")
-    ctx.assumptions.append("and/or/xor/invert are compared on boolean (0/1) data only: funsor's are bitwise, the spec's logical")
+    ctx.assumptions.append("and/or/xor are bitwise on integers in funsor and in the spec (compared on booleans and on small "
+                           "non-boolean ints); invert, named Reduce(and_/or_) and all/any are compared on numpy-bool data only")
     ctx.assumptions.append("syntax for Lean is built under `reflect` with Reduce._alpha_convert made tolerant of reduced "
                            "variables absent from the argument (plain reflect raises KeyError there); eager runs unpatched")
 
